@@ -15,7 +15,7 @@ Variable is_print : N -> bool.
 Notation esc_rune := (esc_rune is_print).
 Notation quote_go := (quote_go is_print).
 Notation quote_body := (quote_body is_print).
-Notation go_quote := (go_quote is_print).
+Notation po_go_quote := (po_go_quote is_print).
 Notation po_quo := (po_quo is_print).
 Notation po_opt := (po_opt is_print).
 Notation po_msgstr := (po_msgstr is_print).
@@ -273,9 +273,9 @@ Qed.
 (* Unquote (Quote s) = s                                               *)
 (* ------------------------------------------------------------------ *)
 
-Theorem unquote_quote (s : bstr) : bytes s -> go_unquote (go_quote s) = Ok s.
+Theorem unquote_quote (s : bstr) : bytes s -> go_unquote (po_go_quote s) = Ok s.
 Proof.
-  intro Hb. unfold go_quote, go_unquote.
+  intro Hb. unfold po_go_quote, go_unquote.
   set (rest1 := quote_body s ++ [34]).
   assert (Hlen : Nat.ltb (length (34 :: rest1)) 2 = false).
   { apply PeanoNat.Nat.ltb_ge. subst rest1. cbn [length]. rewrite app_length. cbn. lia. }
@@ -329,13 +329,13 @@ Qed.
 Lemma is_prefix_app p s : is_prefix p (p ++ s) = true.
 Proof. induction p as [|c p IH]; cbn [is_prefix app]; [destruct s; reflexivity|]. rewrite N.eqb_refl. exact IH. Qed.
 
-Lemma sc_unquote_quote v s : bytes v -> sc_unquote (go_quote v) s = Ok (v, s).
+Lemma sc_unquote_quote v s : bytes v -> sc_unquote (po_go_quote v) s = Ok (v, s).
 Proof. intro H. unfold sc_unquote. rewrite unquote_quote by exact H. reflexivity. Qed.
 
 (* continuation lines *)
 Lemma sc_quo_more_lines : forall pieces r tail e fuel l0,
   Forall bytes pieces -> no_quote_next tail -> (length pieces + length tail < fuel)%nat ->
-  sc_quo_more fuel r (scan_of (l0 :: map go_quote pieces ++ tail) e) = Ok (r ++ concat pieces, scan_of tail e).
+  sc_quo_more fuel r (scan_of (l0 :: map po_go_quote pieces ++ tail) e) = Ok (r ++ concat pieces, scan_of tail e).
 Proof.
   induction pieces as [|p ps IH]; intros r tail e fuel l0 Hb Hq Hf.
   - cbn [map app concat]. rewrite app_nil_r. destruct fuel as [|fuel]; [lia|]. cbn [sc_quo_more].
@@ -344,11 +344,11 @@ Proof.
     destruct t as [|c t]; [reflexivity|]. destruct (N.eq_dec c 34) as [->|Hne]; [contradiction|].
     destruct c as [|p]; [reflexivity|]. do 6 (destruct p as [p|p|]; try reflexivity). congruence.
   - cbn [map app concat]. destruct fuel as [|fuel]; [lia|]. cbn [sc_quo_more]. rewrite sc_scan_of. cbn [negb].
-    cbn [scan_of hd sc_cur]. unfold go_quote at 1. fold (go_quote p).
+    cbn [scan_of hd sc_cur]. unfold po_go_quote at 1. fold (po_go_quote p).
     inversion Hb as [|? ? Hp Hps]; subst.
     rewrite sc_unquote_quote by exact Hp. cbn [bind].
-    change {| sc_cur := go_quote p; sc_rest := tl (go_quote p :: map go_quote ps ++ tail); sc_err := e |}
-      with (scan_of (go_quote p :: map go_quote ps ++ tail) e).
+    change {| sc_cur := po_go_quote p; sc_rest := tl (po_go_quote p :: map po_go_quote ps ++ tail); sc_err := e |}
+      with (scan_of (po_go_quote p :: map po_go_quote ps ++ tail) e).
     rewrite IH; [rewrite <- app_assoc; reflexivity|exact Hps|exact Hq|cbn [length] in Hf; lia].
 Qed.
 
@@ -394,10 +394,10 @@ Proof.
   { intro m. destruct Hsp as [-> | ->]; [apply trim_space_quoted0|apply trim_space_quoted]. }
   destruct (negb (contains val 10)) eqn:En.
   - cbn [app]. unfold sc_quo, sc_prefix, sc_txt. cbn [scan_of hd sc_cur].
-    rewrite <- app_assoc, is_prefix_app, drop_app_length. unfold go_quote at 1.
-    rewrite Ht. fold (go_quote val). rewrite sc_unquote_quote by exact Hb. cbn [bind].
-    pose proof (sc_quo_more_lines [] val tail e (S (length (sc_rest (scan_of ((R ++ sp ++ go_quote val) :: tail) e))))
-                  (R ++ sp ++ go_quote val) (Forall_nil _) Hq) as H.
+    rewrite <- app_assoc, is_prefix_app, drop_app_length. unfold po_go_quote at 1.
+    rewrite Ht. fold (po_go_quote val). rewrite sc_unquote_quote by exact Hb. cbn [bind].
+    pose proof (sc_quo_more_lines [] val tail e (S (length (sc_rest (scan_of ((R ++ sp ++ po_go_quote val) :: tail) e))))
+                  (R ++ sp ++ po_go_quote val) (Forall_nil _) Hq) as H.
     cbn [map app concat length scan_of tl sc_rest] in H. rewrite app_nil_r in H.
     apply H. lia.
   - cbn [app]. unfold sc_quo, sc_prefix, sc_txt. cbn [scan_of hd sc_cur].
@@ -405,7 +405,7 @@ Proof.
     change [34; 34] with (34 :: [] ++ [34]). rewrite Ht. cbn [app].
     assert (Hu : forall s, sc_unquote [34; 34] s = Ok ([], s)) by reflexivity. rewrite Hu. cbn [bind].
     pose proof (sc_quo_more_lines (split_nl [] val) [] tail e
-                  (S (length (sc_rest (scan_of ((R ++ sp ++ [34; 34]) :: map go_quote (split_nl [] val) ++ tail) e))))
+                  (S (length (sc_rest (scan_of ((R ++ sp ++ [34; 34]) :: map po_go_quote (split_nl [] val) ++ tail) e))))
                   (R ++ sp ++ [34; 34]) (bytes_split_nl val [] (Forall_nil _) Hb) Hq) as H.
     rewrite concat_split_nl in H. cbn [app] in H. apply H.
     cbn [scan_of tl sc_rest]. rewrite app_length, map_length. lia.
